@@ -18,6 +18,10 @@ Three independent parts, none of which looks at jedi's sources or at the Lean mo
 
 Root causes (all reproduced by hand on the unchanged jedi, see known_findings.d/C06.json):
 
+Not judged (not a pure selection): argument tuples on which an exception leaves the selection (raised in it, handled
+by a `try` around it): the bindings made before the exception are observable in the handler, no function
+call can keep them.
+
   extract-function-self-referencing-assignment      `acc = acc + i`, `a, b = b, a`, `v += v`: the read is looked
         up at its own position (`context.goto(name, name.start_pos)`), where the target of the same
         statement is already visible, so the value from before the selection is not a parameter
@@ -116,6 +120,21 @@ def selections(src, max_run=4):
 
 # ------------------------------------------------------------------ running entry functions
 
+class _Lines(set):
+    def __init__(self, *a):
+        super().__init__(*a)
+        self.raised = []
+
+
+def exception_leaves(lines, sel):
+    """did an exception that surfaced inside the selection continue outside of it (handler or caller)?"""
+    first, last = sel['start'][0], sel['until'][0] - 1
+    for at, nxt in getattr(lines, 'raised', []):
+        if first <= at <= last and not (nxt is not None and first <= nxt <= last):
+            return True
+    return False
+
+
 class Runner:
     """executes `entry(*args)` of a program; outcome = ['ok', repr(value)] | ['exc', class, message, function
     that raised, line]; `lines` = the line numbers of `func` (a def name) that were executed"""
@@ -130,12 +149,25 @@ class Runner:
             self.error = '%s: %s' % (type(e).__name__, e)
 
     def call(self, entry, args_text, trace_func=None):
-        lines = set()
+        """-> (outcome, lines): `lines` is a set subclass with attribute `raised` = [(line where an exception
+        surfaced in `trace_func`, line executed next in that frame or None when it left the function)]"""
+        lines = _Lines()
         tracer = None
         if trace_func is not None:
+            pending = [None]
+
             def local(frame, event, arg):
                 if event == 'line':
                     lines.add(frame.f_lineno)
+                    if pending[0] is not None:
+                        lines.raised.append((pending[0], frame.f_lineno))
+                        pending[0] = None
+                elif event == 'exception':
+                    if pending[0] is None:
+                        pending[0] = frame.f_lineno
+                elif event == 'return' and pending[0] is not None:
+                    lines.raised.append((pending[0], None))
+                    pending[0] = None
                 return local
 
             def tracer(frame, event, arg):
@@ -675,8 +707,10 @@ def check_selection(src, entry, sel, arg_texts, old_runs, rng_extra=None):
              'new_outcome': ['exc', nr.error.split(':')[0], nr.error, '<module>', 0]}]}
     # every distinct way in which the new program behaves differently (one per failing name / function)
     seen = {}
-    for a, (old, _lines) in zip(arg_texts, old_runs):
-        if old[0] != 'ok':
+    for a, (old, lines) in zip(arg_texts, old_runs):
+        if old[0] != 'ok' or exception_leaves(lines, sel):
+            # the equivalence clause is about selections without side effects: on these arguments the
+            # selection is left by an exception (caught further out), its partial bindings are observable
             continue
         newo, _ = nr.call(entry['entry'], a)
         if newo != old:
@@ -727,7 +761,8 @@ def flow_worker(item):
                 res = check_selection(src, entry, sel, texts, rr)
                 res.update({'rec': 'case', 'entry': entry['entry'], 'sel': sel,
                             'covered': len(covered), 'need': len(need),
-                            'old_raises': sum(1 for (o, _l) in rr if o[0] != 'ok'), 'nargs': len(texts)})
+                            'old_raises': sum(1 for (o, l_) in rr if o[0] != 'ok' or exception_leaves(l_, sel)),
+                            'nargs': len(texts)})
                 if res['status'] not in ('same', 'refused'):
                     res['source'] = src
                     res['args_all'] = texts
